@@ -36,13 +36,18 @@ type Input struct {
 	N     int    `json:"n"`
 	Kind  string `json:"kind"`
 	Real  bool   `json:"real_deadline,omitempty"` // silence is waited out with the real 30 s idle timeout
+	Waits int    `json:"passive_waits,omitempty"` // ftp: data commands in the script that wait out a passive-socket timeout (30 s each)
+	Slow  bool   `json:"slow,omitempty"`          // needs a passive-socket timeout of wall-clock time: thorough tier only
+	Sweep *SweepIn `json:"sweep,omitempty"`       // part "sweep": an unmodelled service (then only this field and n count)
 }
 
 type Obs struct {
 	Conns []ConnObs `json:"conns"`
-	GorGC int       `json:"gor_gc"`
-	LisGC int       `json:"lis_gc"`
-	FdsGC int       `json:"fds_gc"`
+	GorGC   int       `json:"gor_gc"`
+	LisGC   int       `json:"lis_gc"`
+	FdsGC   int       `json:"fds_gc"`
+	Settled []int     `json:"settled,omitempty"`
+	Events  int64     `json:"events"` // events the service sent to its channel during the history
 }
 
 func runChild(sp Spec, dir string, k int) (ChildResult, string) {
@@ -62,7 +67,7 @@ func runChild(sp Spec, dir string, k int) (ChildResult, string) {
 	}
 	donec := make(chan error, 1)
 	go func() { donec <- cmd.Wait() }()
-	budget := time.Duration(sp.N)*time.Duration(25*sp.DeadlineMs+300)*time.Millisecond + time.Duration(sp.WaitMs)*time.Millisecond + 30*time.Second
+	budget := time.Duration(sp.N)*time.Duration(25*sp.DeadlineMs+300)*time.Millisecond + time.Duration(sp.N*sp.WaitMs+sp.SettleMs)*time.Millisecond + 30*time.Second
 	var werr error
 	select {
 	case werr = <-donec:
@@ -285,7 +290,7 @@ func caseMix(r *hx.Rand, s string) string {
 	return s
 }
 
-func genFtp(r *hx.Rand) []byte {
+func genFtp(r *hx.Rand, list bool, pasv string) []byte {
 	var b []byte
 	line := func(s string) { b = append(b, s...); b = append(b, r.PickStr([]string{"\r\n", "\r\n", "\n"})...) }
 	if r.Chance(5, 6) {
@@ -295,13 +300,21 @@ func genFtp(r *hx.Rand) []byte {
 	for i, n := 0, r.Range(0, 6); i < n; i++ {
 		switch r.Intn(12) {
 		case 0, 1, 2:
-			line(caseMix(r, "PASV"))
+			line(caseMix(r, pasv))
 		case 3:
 			line(caseMix(r, "EPSV"))
 		case 4:
-			line(caseMix(r, "LIST"))
+			if list {
+				line(caseMix(r, "LIST"))
+			} else {
+				line(caseMix(r, "NOOP"))
+			}
 		case 5:
-			line(caseMix(r, "NLST"))
+			if list {
+				line(caseMix(r, "NLST"))
+			} else {
+				line(caseMix(r, "SYST"))
+			}
 		case 6:
 			line(caseMix(r, "NOOP"))
 		case 7:
@@ -323,7 +336,7 @@ func genFtp(r *hx.Rand) []byte {
 	return b
 }
 
-var ftpOutside = regexp.MustCompile(`(?im)^(ADAT|ALLO|APPE|AUTH|CDUP|CWD|CCC|CONF|DELE|ENC|EPRT|FEAT|MDTM|MIC|MKD|MODE|OPTS|PBSZ|PORT|PROT|RETR|REST|RNFR|RNTO|RMD|SIZE|STOR|STRU|TYPE|XCUP|XCWD|XRMD)( |\r|\n|$)`)
+var ftpOutside = regexp.MustCompile(`(?im)^(LIST|NLST|PASV|ADAT|ALLO|APPE|AUTH|CDUP|CWD|CCC|CONF|DELE|ENC|EPRT|FEAT|MDTM|MIC|MKD|MODE|OPTS|PBSZ|PORT|PROT|RETR|REST|RNFR|RNTO|RMD|SIZE|STOR|STRU|TYPE|XCUP|XCWD|XRMD)( |\r|\n|$)`)
 
 func genSmtp(r *hx.Rand) []byte {
 	var b []byte
@@ -406,7 +419,17 @@ func genInput(r *hx.Rand, svc string, tier string) Input {
 		case "memcached":
 			payload = genMemcached(r, in.Proto == "udp")
 		case "ftp":
-			payload = genFtp(r)
+			// a data command on a passive socket whose client does not come (or holds still)
+			// waits out the 30 s passive timeout: only the corpus of the thorough tier does
+			// that; a PASV on an IPv6 local address panics and leaves its socket behind for
+			// 30 s: thorough tier only (the check then waits and measures again)
+			in.V6 = r.Chance(1, 5)
+			in.Conn.Dial = r.PickStr([]string{"", "", "knock", "knock", "hold"})
+			pasv := "PASV"
+			if in.V6 && tier != "thorough" {
+				pasv = "EPSV"
+			}
+			payload = genFtp(r, in.Conn.Dial == "knock", pasv)
 		case "smtp":
 			payload = genSmtp(r)
 		}
@@ -426,7 +449,7 @@ func genInput(r *hx.Rand, svc string, tier string) Input {
 			in.Kind = "empty"
 		}
 	}
-	if svc == "ftp" {
+	if svc == "ftp" && in.Kind != "dialogue" {
 		in.V6 = r.Chance(1, 5)
 		in.Conn.Dial = r.PickStr([]string{"", "", "knock", "knock", "hold"})
 	}
@@ -459,14 +482,16 @@ func corpus() []Input {
 		{Svc: "ntp", Proto: "udp", N: 1, Kind: "corpus", Conn: Conn{Segs: str("\x1b" + strings.Repeat("\x00", 47))}},
 		{Svc: "echo", Proto: "udp", N: 1, Kind: "corpus", Conn: Conn{Segs: str("hello")}},
 		{Svc: "adb", Proto: "udp", N: 1, Kind: "corpus", Conn: Conn{Segs: str(cnxn)}},
-		{Svc: "ftp", Proto: "tcp", N: 1, Kind: "corpus", Conn: Conn{End: "close", Segs: with("PASV\r\n", "LIST\r\n")}},
+		{Svc: "ftp", Proto: "tcp", N: 1, Kind: "corpus", Slow: true, Waits: 1, Conn: Conn{End: "close", Segs: with("PASV\r\n", "LIST\r\n")}},
 		{Svc: "ftp", Proto: "tcp", N: 10, Kind: "corpus", Conn: Conn{End: "close"}},
 		{Svc: "ftp", Proto: "tcp", N: 10, Kind: "corpus", Conn: Conn{End: "close", Segs: with("PASV\r\n", "QUIT\r\n")}},
 		{Svc: "ftp", Proto: "tcp", N: 5, Kind: "corpus", Conn: Conn{End: "close", Dial: "knock", Segs: with("PASV\r\n", "PASV\r\n", "LIST\r\n")}},
-		{Svc: "ftp", Proto: "tcp", N: 1, Kind: "corpus", Conn: Conn{End: "close", Dial: "hold", Segs: with("PASV\r\n", "LIST\r\n")}},
+		{Svc: "ftp", Proto: "tcp", N: 1, Kind: "corpus", Slow: true, Waits: 1, Conn: Conn{End: "close", Dial: "hold", Segs: with("PASV\r\n", "NLST\r\n", "NOOP\r\n")}},
 		{Svc: "ftp", Proto: "tcp", N: 4, Kind: "corpus", Conn: Conn{End: "close", Dial: "hold", Segs: with("PASV\r\n", "QUIT\r\n")}},
 		{Svc: "ftp", Proto: "tcp", N: 3, V6: true, Kind: "corpus", Conn: Conn{End: "close", Segs: with("EPSV\r\n", "EPSV\r\n")}},
-		{Svc: "ftp", Proto: "tcp", N: 2, V6: true, Kind: "corpus", Conn: Conn{End: "close", Segs: with("PASV\r\n")}},
+		{Svc: "ftp", Proto: "tcp", N: 2, V6: true, Kind: "corpus", Slow: true, Conn: Conn{End: "close", Segs: with("PASV\r\n")}},
+		{Svc: "ftp", Proto: "tcp", N: 6, Kind: "corpus", Conn: Conn{End: "close", Segs: with("PASV\r\n", "PASV\r\n", "PASV\r\n")}},
+		{Svc: "ftp", Proto: "tcp", N: 3, Kind: "corpus", Conn: Conn{End: "silent", Dial: "hold", Segs: with("PASV\r\n", "PASV\r\n")}},
 		{Svc: "ftp", Proto: "tcp", N: 2, Kind: "corpus", Conn: Conn{End: "silent", Segs: with("PAS")}},
 		{Svc: "smtp", Proto: "tcp", N: 10, Kind: "corpus", Conn: Conn{End: "close", Segs: str("HELO x\r\n", "QUIT\r\n")}},
 		{Svc: "smtp", Proto: "tcp", N: 2, Kind: "corpus", Conn: Conn{End: "silent", Segs: str("HELO x\r\n", "NOO")}},
@@ -512,7 +537,8 @@ func coqCase(id int, in Input, ob Obs) string {
 	var segs []string
 	term := "TEof"
 	if in.Proto == "udp" {
-		term = udpTerm
+		// udpTerm == "TZero" would be a regression of listener.DummyUDPConn: the model (of the
+		// repaired code) has no such ending; the spinning handlers then show as violations
 		var d []byte
 		for _, s := range in.Conn.Segs {
 			d = append(d, s...)
@@ -533,9 +559,13 @@ func coqCase(id int, in Input, ob Obs) string {
 		os = append(os, fmt.Sprintf("mkObs %d %d %d %d %d %d %d %s %s %s", outCode[c.Outcome], c.Reads, c.ZeroReads, c.Timeouts, c.EOFs, c.Writes, c.WBytes,
 			hx.CoqZ(int64(c.Gor)), hx.CoqZ(int64(c.Lis)), hx.CoqZ(int64(c.Fds))))
 	}
-	return fmt.Sprintf("mkCase %s (mkScn %s %s %s %s) %s %s %s %s (%s, %s, %s)", hx.CoqN(uint64(id)), svcCoq[in.Svc], hx.CoqBool(in.Proto == "udp"), hx.CoqBool(in.V6), dialCoq[in.Conn.Dial],
+	settled := "(@None (Z * Z * Z))"
+	if len(ob.Settled) == 3 {
+		settled = fmt.Sprintf("(Some (%s, %s, %s))", hx.CoqZ(int64(ob.Settled[0])), hx.CoqZ(int64(ob.Settled[1])), hx.CoqZ(int64(ob.Settled[2])))
+	}
+	return fmt.Sprintf("mkCase %s (mkScn %s %s %s %s) %s %s %s %s (%s, %s, %s) %s", hx.CoqN(uint64(id)), svcCoq[in.Svc], hx.CoqBool(in.Proto == "udp"), hx.CoqBool(in.V6), dialCoq[in.Conn.Dial],
 		hx.CoqList(segs, "bytes"), term, hx.CoqN(uint64(in.N)), hx.CoqList(os, "obs"),
-		hx.CoqZ(int64(ob.GorGC)), hx.CoqZ(int64(ob.LisGC)), hx.CoqZ(int64(ob.FdsGC)))
+		hx.CoqZ(int64(ob.GorGC)), hx.CoqZ(int64(ob.LisGC)), hx.CoqZ(int64(ob.FdsGC)), settled)
 }
 
 func main() {
@@ -554,7 +584,11 @@ func main() {
 		}
 		ins = []Input{in}
 	} else {
-		ins = corpus()
+		for _, in := range corpus() {
+			if !in.Slow || o.Tier == "thorough" {
+				ins = append(ins, in)
+			}
+		}
 		per := 22
 		switch o.Tier {
 		case "thorough":
@@ -583,6 +617,31 @@ func main() {
 			ins = append(ins, in)
 		}
 	}
+	if o.Only == "" {
+		ns := []int{1, 10}
+		if o.Tier == "thorough" {
+			ns = []int{1, 10, 50, 200}
+		}
+		for _, sv := range []string{"vnc", "ssh-simulator", "ipp"} {
+			nsc := 5
+			if sv == "ssh-simulator" {
+				nsc = 3
+			}
+			for sc := 0; sc < nsc; sc++ {
+				for _, silent := range []bool{false, true} {
+					for _, n := range ns {
+						if silent && n > 10 {
+							continue
+						}
+						if silent && n > 1 {
+							n = 2
+						}
+						ins = append(ins, Input{Svc: sv, Proto: "tcp", N: n, Kind: "sweep", Sweep: &SweepIn{Svc: sv, Scenario: sc, Silent: silent, N: n}})
+					}
+				}
+			}
+		}
+	}
 	deadline, wait := 60, 700
 	if o.Tier == "thorough" {
 		deadline, wait = 100, 2000
@@ -595,6 +654,7 @@ func main() {
 			realDeadlineMs *= 1000
 		}
 	}
+	passiveMs := passiveTimeoutFact()
 	perturb := os.Getenv("C09_PERTURB") // sanity testing of the check only
 	scratch, err := ioutil.TempDir(o.Out, "c09run")
 	if err != nil {
@@ -615,23 +675,47 @@ func main() {
 			defer wg.Done()
 			defer func() { <-sem }()
 			in := ins[i]
-			sp := Spec{Svc: in.Svc, Proto: in.Proto, V6: in.V6, Conn: in.Conn, N: in.N, DeadlineMs: deadline, WaitMs: wait, Perturb: perturb}
+			sp := Spec{Svc: in.Svc, Proto: in.Proto, V6: in.V6, Conn: in.Conn, N: in.N, DeadlineMs: deadline, WaitMs: wait, Perturb: perturb, Sweep: in.Sweep}
 			if in.Real {
 				sp.DeadlineMs, sp.WaitMs = realDeadlineMs, 3*realDeadlineMs
 			}
+			sp.WaitMs += in.Waits * (passiveMs + 2000)
+			sp.SettleMs = passiveMs + 1500
 			res, crash := runChild(sp, scratch, i)
 			results[i] = result{res, crash}
 		}(i)
 	}
 	wg.Wait()
 	dist := map[string]int{}
-	var cases []hx.Case
+	distW := map[string]int{}
+	var cases, wcases []hx.Case
 	for i, in := range ins {
 		res, crash := results[i].res, results[i].crash
+		if in.Sweep != nil {
+			if crash == "" && res.Err != "" {
+				crash = res.Err
+			}
+			distW["svc:"+in.Sweep.Svc]++
+			distW[fmt.Sprintf("silent:%v", in.Sweep.Silent)]++
+			if len(res.Conns) > 0 {
+				distW["outcome:"+res.Conns[len(res.Conns)-1].Outcome]++
+			}
+			var os []string
+			for _, c := range res.Conns {
+				os = append(os, fmt.Sprintf("mkW %d %s %s %s", outCode[c.Outcome], hx.CoqZ(int64(c.Gor)), hx.CoqZ(int64(c.Lis)), hx.CoqZ(int64(c.Fds))))
+			}
+			id := len(wcases)
+			coq := fmt.Sprintf("mkSweep %s %d%%N %d%%N %s %s %s", hx.CoqN(uint64(id)), sweepSvcCode[in.Sweep.Svc], in.Sweep.Scenario, hx.CoqBool(in.Sweep.Silent), hx.CoqN(uint64(in.Sweep.N)), hx.CoqList(os, "wobs"))
+			wcases = append(wcases, hx.Case{ID: id, Kind: "sweep/" + in.Sweep.Svc, Input: in, Obs: Obs{Conns: res.Conns, Events: res.Events}, Crash: crash, Coq: coq})
+			continue
+		}
 		if crash == "" && res.Err != "" {
 			crash = res.Err
 		}
-		ob := Obs{Conns: res.Conns, GorGC: res.GorGC, LisGC: res.LisGC, FdsGC: res.FdsGC}
+		ob := Obs{Conns: res.Conns, GorGC: res.GorGC, LisGC: res.LisGC, FdsGC: res.FdsGC, Settled: res.Settled, Events: res.Events}
+		if in.Slow {
+			dist["waits-out-a-passive-socket-timeout"]++
+		}
 		dist["svc:"+in.Svc]++
 		dist["proto:"+in.Proto]++
 		dist["kind:"+in.Kind]++
@@ -654,8 +738,32 @@ func main() {
 		kind := in.Svc + "/" + in.Proto
 		cases = append(cases, hx.Case{ID: i, Kind: kind, Input: in, Obs: ob, Crash: crash, Coq: coqCase(i, in, ob)})
 	}
-	extra := map[string]interface{}{"deadline_ms": deadline, "wait_ms": wait, "idle_timeout_in_server_honeytrap_go": facts, "udp_after_datagram": udpTerm}
-	hx.Write(o, "C09", "conn", "From HT Require Import Common.Bytes C09.Model C09.Check.", "case", cases, dist, extra, 40)
+	extra := map[string]interface{}{"deadline_ms": deadline, "wait_ms": wait, "idle_timeout_in_server_honeytrap_go": facts, "udp_after_datagram": udpTerm, "ftp_passive_timeout_ms": passiveMs}
+	if len(cases) > 0 || o.Only == "" {
+		hx.Write(o, "C09", "conn", "From HT Require Import Common.Bytes C09.Model C09.Check.", "case", cases, dist, extra, 40)
+	}
+	if len(wcases) > 0 {
+		hx.Write(o, "C09", "sweep", "From HT Require Import Common.Bytes C09.Sweep.", "case", wcases, distW, nil, 200)
+	}
+}
+
+// the timeout of ftp passive sockets, read from services/ftp/socket.go
+func passiveTimeoutFact() int {
+	repo := os.Getenv("VERIF_REPO")
+	if repo == "" {
+		repo = "/repo"
+	}
+	b, err := ioutil.ReadFile(filepath.Join(repo, "services", "ftp", "socket.go"))
+	if err != nil {
+		hx.Fatal("cannot read services/ftp/socket.go: %v", err)
+	}
+	m := regexp.MustCompile(`passiveTimeout\s*=\s*(\d+)\s*\*\s*time\.Second`).FindSubmatch(b)
+	if m == nil {
+		return 30000 // no such constant (any more): a socket that is not released shows as a violation
+	}
+	var n int
+	fmt.Sscanf(string(m[1]), "%d", &n)
+	return n * 1000
 }
 
 // the 30 s constant is read from server/honeytrap.go as a fact (not waited for in the quick tier)
